@@ -226,6 +226,13 @@ def builder_for(mode):
                 for k, v in pairs:
                     ff = ff(**{k: build(v, leaves)})
             return funsor.reinterpret(ff)
+        if mode == "chained_lazy":       # f built lazily, one substitution after the other under lazy (a Subs term survives
+            # only where eager_subs declines - Gaussians with non-affine values - so Subs(Subs) fusion is decided under C12)
+            with lazy:
+                ff = build(f, leaves)
+                for k, v in pairs:
+                    ff = ff(**{k: build(v, leaves)})
+            return funsor.reinterpret(ff)
         if mode == "chained":
             ff = build(f, leaves)
             for k, v in pairs:
@@ -240,7 +247,7 @@ def prog_worker(inst):
     from lang.prog import type_of, subs as P_subs
     _, mode, prog = inst
     tmo = 4000 if os.environ.get("VERIF_TIER", "quick") == "quick" else 10000
-    if mode in ("chained", "chained_normalize"):
+    if mode in ("chained", "chained_normalize", "chained_lazy"):
         # f(a)(b): the oracle is the NESTED substitution
         _, f, pairs = prog
         nested = f
@@ -384,6 +391,8 @@ def instances(tier, seed):
                 out.append(("prog", "chained", p))
             if len(m) >= 2 and rng.random() < 0.4:
                 out.append(("prog", "chained_normalize", p))
+            if len(m) >= 2 and rng.random() < 0.5:
+                out.append(("prog", "chained_lazy", p))
     return out
 
 
